@@ -51,8 +51,11 @@ LEVEL_TEXT = (
     "of the post-run patch + interval, later only through the idle gate, with the exact form of the postponement), "
     "sharp_grid (start + k*interval, k>=1, the first grid point strictly after the post-run patch), error_delay_law "
     "(max(patched, ended + delay); classify_temporary/classify_arbitrary give delay = the error's delay / the backoff), "
-    "initial_delay_law (every spawn), idle_law (induction over the run sequence), idle_only_law, one_shot, attempt_law; "
-    "permanent_reruns_witness proves that a permanent failure does not end the timer (known finding C11-F1). "
+    "initial_delay_law (every spawn), idle_only_law, one_shot, attempt_law. The idle clause is PARTIAL: idle_law_partial "
+    "(induction over the run sequence) bounds every start by idle after the last change the operator REGISTERED "
+    "(idle_reset_time); idle_reset_flip_back_witness proves that a change restoring the last-handled essence is not "
+    "registered (finding C10-F1, replayed on the real operator in every run). permanent_reruns_witness proves that a "
+    "permanent failure does not end the timer (known finding C11-F1). "
     "The model is hand-written; its branch chain, loop conditions, sleep arithmetic and statement skeleton are re-extracted "
     "from the AST on every run and proved equal (T), and its step function is compared run by run, tick-exact, with the "
     "real operator in seeded closed-loop simulations (S). Assumes interval > 0 where present and no handler timeout.")
